@@ -51,7 +51,7 @@ func init() {
 			{Name: "analyzers-from-map", File: "lintcmd/lint.go", Rule: "R6.4", KeyPart: "lint::as",
 				Old: "\tfor _, a := range l.opts.analyzers {\n\t\tas = append(as, a.Analyzer)\n\t}", New: "\tfor _, a := range l.analyzers {\n\t\tas = append(as, a.Analyzer)\n\t}"},
 			{Name: "sarif-changes-in-map-order", File: "lintcmd/sarif.go", Rule: "R6.4", KeyPart: "sarifFormatter).Format",
-				Old: "\t\t\tfor _, path := range slices.Sorted(maps.Keys(changes)) {\n\t\t\t\tsfix.ArtifactChanges = append(sfix.ArtifactChanges, sarif.ArtifactChange{\n\t\t\t\t\tArtifactLocation: sarifArtifactLocation(path),\n\t\t\t\t\tReplacements:     changes[path],",
+				Old:  "\t\t\tfor _, path := range slices.Sorted(maps.Keys(changes)) {\n\t\t\t\tsfix.ArtifactChanges = append(sfix.ArtifactChanges, sarif.ArtifactChange{\n\t\t\t\t\tArtifactLocation: sarifArtifactLocation(path),\n\t\t\t\t\tReplacements:     changes[path],",
 				New:  "\t\t\tfor path, replacements := range changes {\n\t\t\t\tsfix.ArtifactChanges = append(sfix.ArtifactChanges, sarif.ArtifactChange{\n\t\t\t\t\tArtifactLocation: sarifArtifactLocation(path),\n\t\t\t\t\tReplacements:     replacements,",
 				More: []Edit{{File: "lintcmd/sarif.go", Old: "\t\"maps\"\n\t\"net/url\"", New: "\t\"net/url\""}, {File: "lintcmd/sarif.go", Old: "\t\"regexp\"\n\t\"slices\"\n", New: "\t\"regexp\"\n"}}},
 			{Name: "merge-result-printed-unsorted", File: "lintcmd/cmd.go", Rule: "R6.4", KeyPart: "printDiagnostics",
@@ -470,7 +470,9 @@ func runC06(c *Ctx) {
 			}
 		}
 		param := pd.Params[len(pd.Params)-1]
-		fromParam := func(v ssa.Value) bool { return DerivesLocal(v, func(x ssa.Value) bool { return x == ssa.Value(param) }) }
+		fromParam := func(v ssa.Value) bool {
+			return DerivesLocal(v, func(x ssa.Value) bool { return x == ssa.Value(param) })
+		}
 		var sorts []ssa.Instruction
 		Instrs(pd, false, func(x ssa.Instruction) {
 			if isSortCallOn(x, func(v ssa.Value) bool { return v == ssa.Value(param) }) {
